@@ -432,5 +432,12 @@ int lha_ext_header_decode(LHAFileHeader *header,
 		return 0;
 	}
 
-	return htype->decoder(header, data, data_len);
+	// The decoders only fail if memory cannot be allocated. Report
+	// this distinctly from a header that is just not decoded.
+
+	if (!htype->decoder(header, data, data_len)) {
+		return -1;
+	}
+
+	return 1;
 }
